@@ -97,3 +97,20 @@ void h_merge(void){
   __CPROVER_assert(inv(&g, old.needed.n > 0), "G1 after mergeRefinement the derived structures belong to the merged point set");
   __CPROVER_assert(0, "VACUITY-CANARY");
 }
+
+//@ harness h_setcoef
+/* C04: setHierarchicalCoefficients on a Global grid (whose coefficients are the model values): the loaded point set is unchanged, a pending refinement is
+ * dropped first (otherwise the array, which has one entry per loaded point, would be merged in as values of the needed points), the values are the input. */
+void h_setcoef(void){
+  GF g; gf_symbolic(&g); __CPROVER_assume(inv(&g, false));
+  GF old = g;
+  SETCOEF(&g);
+  __CPROVER_assert(g.needed.n == 0, "C04 after setHierarchicalCoefficients there are no needed points");
+  if (old.points.n > 0) {
+    __CPROVER_assert(g.points.n == old.points.n && g.points.id == old.points.id, "C04 setHierarchicalCoefficients on a grid with loaded points keeps exactly those points (a pending refinement is dropped, not merged)");
+    __CPROVER_assert(g.vals_stored_for == old.points.id, "C04 the coefficients are stored for the loaded points");
+    __CPROVER_assert(g.updated_tensors == 0 && g.updated_active_tensors == 0, "C04 no pending tensors survive");
+  }
+  __CPROVER_assert(inv(&g, true), "C04 afterwards the derived structures belong to the current points and values");
+  __CPROVER_assert(0, "VACUITY-CANARY");
+}
